@@ -8,6 +8,8 @@ import re
 import sys
 
 from bounded.harness import emit, new_ctx, payload, quiet_stdout
+from bounded.harness import install_watchdog
+install_watchdog()
 
 P = payload()
 tier = P.get("tier", "quick")
